@@ -553,6 +553,41 @@ func compareSurfaced(r *explore.Run, prims []string, exp *expectation, events []
 	}
 }
 
+// compareClaim: conditions that target the claim reach the claim - whatever
+// their status - when the real claim reconciler runs next.
+func compareClaim(r *explore.Run, prims []string, exp *expectation, s *simkube.Store, xrd *v1.CompositeResourceDefinition) {
+	ck := xrh.ClaimKey("default", "claim1")
+	if s.Peek(ck) == nil {
+		return
+	}
+	last := map[string]expCond{}
+	for _, c := range exp.conds {
+		if c.claim {
+			last[c.ctype] = c
+		} else {
+			delete(last, c.ctype)
+		}
+	}
+	if len(last) == 0 {
+		return
+	}
+	s.Mutate(ck, func(u *unstructured.Unstructured) {
+		_ = unstructured.SetNestedMap(u.Object, map[string]any{"apiVersion": xrh.XRGVK.GroupVersion().String(), "kind": xrh.XRGVK.Kind, "name": "xr1"}, "spec", "resourceRef")
+	})
+	crec := xrh.NewClaimReconciler(xrd, s.Client("claim"), false)
+	out := xrh.Reconcile(crec, types.NamespacedName{Namespace: "default", Name: "claim1"})
+	have := condsOf(s.Peek(ck))
+	for t, c := range last {
+		h, ok := have[t]
+		if !ok {
+			r.Failf("conditions/claim/dropped", "pipeline %v: condition %s (status %s) targets the claim, but after the claim reconcile (err %v) the claim does not carry it; claim conditions %v", prims, t, c.status, out.Err, have)
+		}
+		if str(h["status"]) != c.status || str(h["reason"]) != c.reason || str(h["message"]) != c.message {
+			r.Failf("conditions/claim/wrong", "pipeline %v: the claim shows condition %s as %v, the XR was given %+v", prims, t, h, c)
+		}
+	}
+}
+
 func specParam(s *structpb.Struct) string {
 	return s.GetFields()["spec"].GetStructValue().GetFields()["param"].GetStringValue()
 }
@@ -695,6 +730,7 @@ func pipelineBodyFaults(r *explore.Run, rep *report.R, scName string, nsteps int
 		}
 		compareSurfaced(r, prims, exp, events, xrAfter)
 		compareFinal(r, prims, state, exp, s, xrAfter)
+		compareClaim(r, prims, exp, s, xrd)
 	case "fatal":
 		if !failed {
 			r.Failf("fatal/not-failed", "pipeline %v: step %d returned a fatal result, yet the XR is Synced=True", prims, exp.failStep)
